@@ -44,6 +44,7 @@ def run(ctx):
     rule_entry(ctx, F)
     rule_sib(ctx, F)
     rule_svckey(ctx, F)
+    rule_sym(ctx, F)
 
 
 # ---------------------------------------------------------------------------
@@ -797,3 +798,47 @@ def rule_svckey(ctx, F):
 
 def _fmt_set(s):
     return "".join(chr(c) if 0x21 <= c < 0x7F else "\\x%02x" % c for c in sorted(s)) or "-"
+
+
+# ---------------------------------------------------------------------------
+# the writers' octet -> symbol choice against the reader (all 256 octets)
+# ---------------------------------------------------------------------------
+
+def _char_set(b, F):
+    """octets for which a `fn(ch: u8) -> Symbol` returns Symbol::Char(ch)"""
+    parts = c03.byte_partition(b, F, lambda tt: deep_strip(tt) == ("arg", 1))
+    if not parts:
+        return None
+    out = set()
+    for octs, leaf, path in parts:
+        blocks = list(path) + [leaf]
+        kinds = [st[2][1][2] for bb in blocks for st in b.blocks[bb]["s"]
+                 if st[0] == "=" and st[1] == [0] and st[2][0] == "agg" and st[2][1][0] == "adt" and str(st[2][1][1]).endswith("scan::Symbol")]
+        if kinds and kinds[-1] == "Char":
+            out |= octs
+    return out
+
+
+def rule_sym(ctx, F):
+    R = "C06.sym"
+    ctx.floor(R, 4)
+    delim = reader_delimiters(F)
+    if not ctx.anchor(R, "reader delimiter set (Symbol::is_word_char)", bool(delim)):
+        return
+    plain = set(range(0x21, 0x7F)) - set(delim) - {0x5C}
+    for fn, what, allowed in (
+        ("from_octet", "outside quotes", plain),
+        ("quoted_from_octet", "inside a quoted string", set(range(0x20, 0x7F)) - {0x22, 0x5C}),
+    ):
+        b = F.one_body(r"^base::scan::Symbol::%s$" % fn)
+        if not ctx.anchor(R, "Symbol::%s" % fn, b):
+            continue
+        cs = _char_set(b, F)
+        if not ctx.anchor(R, "octet classification of Symbol::%s" % fn, cs is not None and set(b"abcxyz0189") <= cs, b.where()):
+            continue
+        bad = cs - allowed
+        ctx.ob(R, b, "%s writes as plain characters only what the reader takes as such" % fn, not bad,
+               "Symbol::%s leaves %s unescaped; %s the reader treats them as delimiters, grouping, comment start or as invalid: "
+               "the written text does not read back" % (fn, _fmt_set(bad), what))
+        ctx.ob(R, b, "%s does not escape more than it has to" % fn, len(allowed - cs) <= 8, nontrivial=False,
+               detail="escaped although plain for the reader: %s" % _fmt_set(allowed - cs))
